@@ -242,8 +242,13 @@ def stepObj (p : PSt) : List String → Option (PSt × String)
 
 /-- Lines of all protocols of `drv_c03`. -/
 def stepLine5 (s : Option Ty × PSt) (toks : List String) : (Option Ty × PSt) × String :=
-  match stepObj s.2 toks with
-  | some (p, o) => ((s.1, p), o)
-  | none => stepLine4 s toks
+  match toks with
+  -- `dec w HEX` (harness/c03/live): a validated `Decode` into the destination an earlier `Decode` of the same call site
+  -- filled.  What `Decode` answers is a function of the bytes: the model's answer is that of `dec v HEX`.
+  | ["dec", "w", h] => stepLine4 s ["dec", "v", h]
+  | _ =>
+    match stepObj s.2 toks with
+    | some (p, o) => ((s.1, p), o)
+    | none => stepLine4 s toks
 
 end Hive.Serix.VX
